@@ -80,9 +80,10 @@ def check_dual(ctx, din, dout, r, cp, cplx, seed=None):
         zA, zB = [Z.of(a) for a in LA], [Z.of(b) for b in LB]
         flat_in = [k for row in obj for k in (row if isinstance(row, list) else [row])]
         snap = [k.copy() for k in flat_in]
+        jphi = jkraus(obj)
         impl = call(dual_channel, obj)
-        model = ctx.lean().ask("c05_dual_kraus", {"phi": jkraus(obj)})
-        info = {"case_seed": seed, "function": "dual_channel", "args": desc, "phi": jkraus(obj), "X": jmat(X), "Y": jmat(Y), "theorem": "dual_adjoint_kraus"}
+        model = ctx.lean().ask("c05_dual_kraus", {"phi": jphi})
+        info = {"case_seed": seed, "function": "dual_channel", "args": desc, "phi": jphi, "X": jmat(X), "Y": jmat(Y), "theorem": "dual_adjoint_kraus"}
         if impl[0] != "ok":
             ok = False
             ctx.violation(f"dual_channel[{name}]: implementation {impl[0]} ({impl[1]}) on a valid call", info)
@@ -161,9 +162,10 @@ def check_dual(ctx, din, dout, r, cp, cplx, seed=None):
         desc = dict(base, fn="dual_channel", form="choi", dims_form=df)
         ctx.case(desc, nontriv, f"dual/choi/{sq}/{'in=out' if din == dout else 'in!=out'}/{df}")
         snap = J.copy()
+        jJ = jmat(J)
         impl = call(dual_channel, J, dims)
-        model = ctx.lean().ask("c05_dual_choi", {"J": jmat(J), "dims": dims_js})
-        info = {"case_seed": seed, "function": "dual_channel", "args": desc, "J": jmat(J), "dims": dims_js, "X": jmat(X), "Y": jmat(Y), "theorem": "dual_adjoint_choi"}
+        model = ctx.lean().ask("c05_dual_choi", {"J": jJ, "dims": dims_js})
+        info = {"case_seed": seed, "function": "dual_channel", "args": desc, "J": jJ, "dims": dims_js, "X": jmat(X), "Y": jmat(Y), "theorem": "dual_adjoint_choi"}
         if "reject" in model:
             ok = False
             ctx.violation(f"dual_channel[choi/{df}]: model rejects a valid call ({model['reject']})", dict(info, impl=str(impl)[:200]))
